@@ -61,8 +61,15 @@ def _job(job):
             a = mergespace.args_for(m, i, o, t)
             try:
                 merged, dec = merge_notebooks(b, l, r, a)
-            except Exception:
-                continue              # C03's business
+            except Exception as exc:
+                # "gives exactly the notebook ...": a merge that raises gives none.  The crash sites recorded as C03 findings stay
+                # C03's business (they are reported there, once); anything else is reported here too
+                site = 'crash:' + mo.exc_site(exc)
+                from .c03 import KNOWN as C03_KNOWN
+                if not any(common.kind_matches(site, k) for k in C03_KNOWN):
+                    out.append((site, 'strategy %r gives no notebook: merge_notebooks raised %s' % ((m, i, o, t), mo.exc_summary(exc)),
+                                {'seed': seed, 'index': ti, 'n': n, 'strategy': [m, i, o, t]}))
+                continue
             try:
                 want = reference(b, l, r, m, i, o, t)
             except Exception:
